@@ -176,3 +176,22 @@ def c06(run):
     run.cov['rule'] = ('Encrypt0/Encrypt x nonce sizes 7/12/13 x IV, Partial IV, Base IV presences, lengths 0..20 and wrong types, with a known entropy stream and a recording encryptor (Encrypt and Decrypt); '
                        '12 real AEADs x nonce lengths 0..17; library-chosen nonces of fresh messages under real entropy (quick 3x4000, thorough 3x200000)')
     return D.finish(run, 'proof')
+
+
+# ------------------------------------------------------------------ C17
+
+@check('C17')
+def c17(run):
+    run.assumptions += ['crypto primitives are universally quantified in the theorems and instantiated per case with values observed from Go crypto in the correspondence',
+                        'behavioural interchangeability of round-tripped keys (signatures verify across forms, identical tags / AEAD outputs) is checked on the implementation by the dispatch stream; the theorem covers the decision logic (factories and gates) for values equal up to Go integer type',
+                        'that a CBOR/JSON/text round trip yields a map equal up to integer type is C09 (and observed here)']
+    run.trusted += ['registry specification coq/Spec/RFC9053.v (hand transcription of RFC 9053 tables and of the 28 registrations)']
+    D.prove(run, extra_targets=['Model/DispatchCorr.vo'])
+    rc, o = D.harness_build()
+    if rc != 0:
+        run.broke('harness build', o[-1500:])
+    else:
+        D.correspond(run, 'dispatch', [])
+    run.cov['rule'] = ('real keys of the 24 registered algorithms x {original, CBOR, JSON, text round trip} x alg present/absent x optional kid/key_ops, all four factories; '
+                       'grid of (kty, alg, crv) triples incl. unregistered values and non-integer members; nil key; KeySet/Signers/Verifiers lookups incl. case-variant and non-UTF-8 ids')
+    return D.finish(run, 'proof')
